@@ -63,10 +63,13 @@ deriving Repr, DecidableEq
 
 /-! #### element readers used by the scalar and the packed methods: value and bytes consumed -/
 
-def elVarint (p : Bytes) : Res (Nat × Nat) :=
-  match decodeVarint p with
+/-- the `if n == 0 { return …, ErrInvalid…Data }` guard every method applies to the free functions -/
+def nz {α} (r : Res (α × Nat)) : Res (α × Nat) :=
+  match r with
   | .ok (v, n) => if n = 0 then .err else .ok (v, n)
   | r => r
+
+def elVarint (p : Bytes) : Res (Nat × Nat) := nz (decodeVarint p)
 
 def elBool (p : Bytes) : Res (Bool × Nat) :=
   (elVarint p).map fun (v, n) => (v != 0, n)
@@ -86,15 +89,10 @@ def elInt32 (p : Bytes) : Res (Int × Nat) :=
 def elInt64 (p : Bytes) : Res (Int × Nat) :=
   (elVarint p).map fun (v, n) => (toI64 v, n)
 
-def elFixed32 (p : Bytes) : Res (Nat × Nat) :=
-  match decodeFixed32 p with
-  | .ok (v, n) => if n = 0 then .err else .ok (v, n)
-  | r => r
-
-def elFixed64 (p : Bytes) : Res (Nat × Nat) :=
-  match decodeFixed64 p with
-  | .ok (v, n) => if n = 0 then .err else .ok (v, n)
-  | r => r
+def elFixed32 (p : Bytes) : Res (Nat × Nat) := nz (decodeFixed32 p)
+def elFixed64 (p : Bytes) : Res (Nat × Nat) := nz (decodeFixed64 p)
+def elSint32 (p : Bytes) : Res (Int × Nat) := nz (decodeZigZag32 p)
+def elSint64 (p : Bytes) : Res (Int × Nat) := nz (decodeZigZag64 p)
 
 /-- `DecodeFloat32` / the element read of `DecodePackedFloat32`: a short payload is an error
     (since the `fix:` commit; before it the `LittleEndian.Uint32` read panicked) -/
@@ -266,10 +264,8 @@ def Dec.step (d : Dec) : DecOp → Dec × DecOut × Nat
   | .uint64 => withAlloc (d.scalar elVarint .nat) 0
   | .int32 => withAlloc (d.scalar elInt32 .int) 0
   | .int64 => withAlloc (d.scalar elInt64 .int) 0
-  | .sint32 => withAlloc (d.scalar (fun p => match decodeZigZag32 p with
-      | .ok (v, n) => if n = 0 then .err else .ok (v, n) | r => r) .int) 0
-  | .sint64 => withAlloc (d.scalar (fun p => match decodeZigZag64 p with
-      | .ok (v, n) => if n = 0 then .err else .ok (v, n) | r => r) .int) 0
+  | .sint32 => withAlloc (d.scalar elSint32 .int) 0
+  | .sint64 => withAlloc (d.scalar elSint64 .int) 0
   | .fixed32 => withAlloc (d.scalar elFixed32 .nat) 0
   | .fixed64 => withAlloc (d.scalar elFixed64 .nat) 0
   | .float32 => withAlloc (d.scalar elFloat32 .nat) 0
@@ -279,10 +275,8 @@ def Dec.step (d : Dec) : DecOp → Dec × DecOut × Nat
   | .packedInt64 => d.packed elInt64 .ints none
   | .packedUint32 => d.packed elUint32 .nats none
   | .packedUint64 => d.packed elVarint .nats none
-  | .packedSint32 => d.packed (fun p => match decodeZigZag32 p with
-      | .ok (v, n) => if n = 0 then .err else .ok (v, n) | r => r) .ints none
-  | .packedSint64 => d.packed (fun p => match decodeZigZag64 p with
-      | .ok (v, n) => if n = 0 then .err else .ok (v, n) | r => r) .ints none
+  | .packedSint32 => d.packed elSint32 .ints none
+  | .packedSint64 => d.packed elSint64 .ints none
   | .packedFixed32 => d.packed elFixed32 .nats none
   | .packedFixed64 => d.packed elFixed64 .nats none
   | .packedFloat32 => d.packed elFloat32 .nats (some 4)
